@@ -99,6 +99,38 @@ pub fn run(ctx: &mut Ctx) {
             }
         }
     }
+    // ---- connection filter: the client random comes from the network; every prefix / mask length of a rule
+    // against every short random and a full 32-byte one -------------------------------------------------
+    {
+        use trusttunnel::rules::{Rule, RuleAction, RuleEvaluation, RulesConfig, RulesEngine};
+        let ip: std::net::IpAddr = "203.0.113.9".parse().unwrap();
+        let randoms: Vec<Vec<u8>> = vec![vec![], vec![0xaa], vec![0xaa, 0xbb], vec![0xaa, 0xbb, 0xcc], (0..32).map(|i| 0xaa ^ (i as u8 & 1)).collect()];
+        for plen in 0..=4usize {
+            for mlen in 0..=6usize {
+                for masked in [false, true] {
+                    if !masked && mlen > 0 {
+                        continue;
+                    }
+                    let prefix: String = (0..plen).map(|i| format!("{:02x}", 0xaa ^ (i as u8 & 1))).collect();
+                    let mask: String = (0..mlen).map(|_| "ff".to_string()).collect();
+                    let pat = if masked { format!("{}/{}", prefix, mask) } else { prefix.clone() };
+                    let rules = vec![Rule { cidr: None, client_random_prefix: Some(pat), action: RuleAction::Deny }];
+                    let engine = RulesEngine::from_config(RulesConfig { rule: rules.clone() });
+                    for rnd in &randoms {
+                        let q = format!("c04 eval 0 {} {} {}", crate::c04::ip_token(&Some(ip)), if rnd.is_empty() { "-".to_string() } else { hex(rnd) }, crate::c04::rules_tokens(&rules));
+                        match catch(std::panic::AssertUnwindSafe(|| engine.evaluate(&ip, Some(rnd)))) {
+                            Ok(v) => ctx.emit(&q, if v == RuleEvaluation::Allow { "allow" } else { "deny" }),
+                            Err(m) => {
+                                ctx.emit(&q, "panic");
+                                ctx.oracle_failure("panic", &format!("RulesEngine::evaluate panicked ({}) on {}", m, q));
+                            }
+                        }
+                        ctx.stat("rule_pattern_lengths");
+                    }
+                }
+            }
+        }
+    }
     // ---- ICMP multiplexer stream ------------------------------------------------------------------------
     for t in &tails {
         let q = format!("c11 decode {}", hex(t));
